@@ -236,18 +236,21 @@ Definition c02_expected_updates (c : c02_case) : list (list zrow2) :=
 Definition c02_model_state (c : c02_case) :=
   free_run (data_row (c2_guesses c) (c2_model c)) (c2_step c) free_fresh (map c02_container (c2_runs c)).
 
+Definition is_nil {A} (l : list A) : bool := match l with [] => true | _ => false end.
+
+(* all the SPEC rows of the case: every trace of every container once, in order, with its own metadata *)
+Definition c02_spec_rows (c : c02_case) : list zrow2 := flat_map (c02_rows c) (c2_runs c).
+
+(* PROPERTY level (check_fn): what the property states, on public observables only — whatever the batch boundaries and
+   the value of the batch size. *)
 Definition c02_check (c : c02_case) : bool :=
   match c2_step c with Some k => 1 <=? k | None => true end
-  && (* the frames are meaningful, the batch size rule gives what the container says, and it is >= 1 *)
-  forallb (fun r => match r2_rows r with [] => false | row :: _ => frame_ok (r2_frame r) (length (fst row)) end
-                    && option_eqb Z.eqb (run_bs r) (r2_obs_bs r)
-                    && match run_bs r with Some b => (1 <=? b)%Z | None => false end) (c2_runs c)
-  (* slicing and pairing: every update() received exactly the rows of its slice, each trace with its own metadata *)
-  && list_eqb (list_eqb zrow2_eqb) (c2_obs_updates c) (c02_expected_updates c)
-  (* the same through the model of run() *)
-  && list_eqb zrow2_eqb (acc (c02_model_state c)) (concat (c2_obs_updates c))
-  && Nat.eqb (processed (c02_model_state c)) (c2_obs_processed c)
-  && Nat.eqb (c2_obs_processed c) (length (concat (map r2_rows (c2_runs c))))
+  && forallb (fun r => match r2_rows r with [] => false | row :: _ => frame_ok (r2_frame r) (length (fst row)) end) (c2_runs c)
+  (* every trace exactly once, in order, restricted to the frame THEN passed through the chain, paired with its own metadata:
+     the rows fed to update(), batch after batch, are the SPEC rows; no empty batch *)
+  && list_eqb zrow2_eqb (concat (c2_obs_updates c)) (c02_spec_rows c)
+  && forallb (fun u => negb (is_nil u)) (c2_obs_updates c)
+  && Nat.eqb (c2_obs_processed c) (length (c02_spec_rows c))
   (* results = one-shot results (both by the real code); scores = discriminant(results) *)
   && Nat.eqb (length (c2_obs_results c)) (prodn (c2_res_shape c))
   && fvals_same (tol_of (c2_prec c)) (c2_obs_results c) (c2_one_results c)
@@ -259,6 +262,16 @@ Definition c02_check (c : c02_case) : bool :=
      | _, _, _ => false
      end.
 
+(* CORRESPONDENCE level (corr_fn): the implementation follows the impl-model — the value of the batch size is the one of
+   batch_size_rule, the batch boundaries are exactly the slices of Model/Container.v for the (derived) batch size, and the
+   model of run() on the free accumulator ends in the observed state. *)
+Definition c02_corr (c : c02_case) : bool :=
+  forallb (fun r => option_eqb Z.eqb (run_bs r) (r2_obs_bs r)
+                    && match run_bs r with Some b => (1 <=? b)%Z | None => false end) (c2_runs c)
+  && list_eqb (list_eqb zrow2_eqb) (c2_obs_updates c) (c02_expected_updates c)
+  && list_eqb zrow2_eqb (acc (c02_model_state c)) (concat (c2_obs_updates c))
+  && Nat.eqb (processed (c02_model_state c)) (c2_obs_processed c).
+
 Definition c02_explain (c : c02_case) := (map run_bs (c2_runs c), c02_expected_updates c).
 
 (* ---------------------------------------------------------------- the batch size rule alone *)
@@ -269,8 +282,25 @@ Record bs_case := {
   b_itemsize : Z;
   b_obs : option Z       (* container.batch_size; None when it returned None or raised ZeroDivisionError *)
 }.
+(* CORRESPONDENCE level: the value is the one of the rule *)
 Definition bs_check (c : bs_case) : bool :=
   option_eqb Z.eqb (batch_size_rule (b_setting c) (b_trace_size c) (b_input_size c) (b_itemsize c)) (b_obs c).
+(* PROPERTY level: under the hypotheses of batch_size_pos (Props/C02.v) the container has a usable batch size: an integer
+   >= 1 (for a table: one of its sizes).  Which one is not part of the property ("whatever the configured batch size"). *)
+Definition bs_pre (c : bs_case) : bool :=
+  match b_setting c with
+  | BInt n => (0 <? n)%Z
+  | BMb _ => (0 <? b_input_size c * b_itemsize c)%Z
+  | BTable t => negb (is_nil t) && (fst (hd (0, 0)%Z t) <=? Z.max (b_trace_size c) (b_input_size c))%Z
+                && forallb (fun e => (1 <=? snd e)%Z) t
+  end.
+Definition bs_prop_check (c : bs_case) : bool :=
+  if bs_pre c then
+    match b_obs c with
+    | Some b => (1 <=? b)%Z && match b_setting c with BTable t => existsb (fun e => Z.eqb (snd e) b) t | _ => true end
+    | None => false
+    end
+  else true.
 Definition bs_explain (c : bs_case) := batch_size_rule (b_setting c) (b_trace_size c) (b_input_size c) (b_itemsize c).
 
 (* ---------------------------------------------------------------- C08 *)
@@ -286,6 +316,7 @@ Record c08_case := {
   c8_width : nat;                         (* number of score entries (product of scores.shape) *)
   c8_obs_computes : list (nat * nat);     (* (processed_traces, columns so far) at every compute_results call *)
   c8_obs_ncols : list nat;                (* number of columns after every run() *)
+  c8_obs_points : list nat;               (* processed_traces when each column was appended *)
   c8_obs_marks : option (list nat);       (* _batches_processed at the end, when the attribute exists *)
   c8_obs_conv : list (list fval);         (* the columns of convergence_traces *)
   c8_obs_scores : list fval;              (* final .scores *)
@@ -313,26 +344,74 @@ Definition c08_points (c : c08_case) : list nat := map fst (cols (c08_model_stat
 
 Definition pairnat_eqb (a b : nat * nat) : bool := Nat.eqb (fst a) (fst b) && Nat.eqb (snd a) (snd b).
 
+(* strictly increasing *)
+Fixpoint incr_from (prev : nat) (l : list nat) : bool :=
+  match l with [] => true | p :: t => (prev <? p) && incr_from p t end.
+Definition strictly_increasing (l : list nat) : bool := match l with [] => true | p :: t => incr_from p t end.
+
+(* the points appended by ONE run(), given the last point that closed a full step before ([lastreg], 0 at the start): every
+   point but the last one of the run is at least [step] after the previous such point; the last point of the run is either
+   such a point too, or a final remainder (closer than [step]).  Returns the new [lastreg], None on a violation. *)
+Fixpoint run_points_ok (step lastreg : nat) (pts : list nat) : option nat :=
+  match pts with
+  | [] => Some lastreg
+  | p :: t =>
+      match t with
+      | [] => Some (if lastreg + step <=? p then p else lastreg)
+      | _ => if lastreg + step <=? p then run_points_ok step p t else None
+      end
+  end.
+
+(* cut the points into the groups appended by each run(), from the number of columns after each run() *)
+Fixpoint split_counts (prev : nat) (counts : list nat) (pts : list nat) : list (list nat) :=
+  match counts with
+  | [] => []
+  | c :: t => firstn (c - prev) pts :: split_counts c t (skipn (c - prev) pts)
+  end.
+
+(* after every run(): at least one column, the last one at the total number of traces processed so far *)
+Fixpoint runs_points_ok (step lastreg total : nat) (runs : list (nat * nat)) (groups : list (list nat)) : bool :=
+  match runs, groups with
+  | [], [] => true
+  | r :: rt, g :: gt =>
+      let total' := total + fst r in
+      negb (is_nil g) && Nat.eqb (last g 0) total'
+      && match run_points_ok step lastreg g with
+         | Some lr => runs_points_ok step lr total' rt gt
+         | None => false
+         end
+  | _, _ => false
+  end.
+
+(* PROPERTY level (check_fn): the clauses of the property on public observables — no reference to the state machine. *)
 Definition c08_check (c : c08_case) : bool :=
-  let st := c08_model_state c in
   let tol := tol_of (c8_prec c) in
   (1 <=? c8_step c)
   && forallb (fun r => (1 <=? fst r) && (1 <=? snd r)) (c8_runs c)
-  (* bookkeeping: when results were computed, how many columns there were, the marks left behind *)
-  && list_eqb pairnat_eqb (c8_obs_computes c) (computes st)
-  && natlist_eqb (c8_obs_ncols c) (c08_ncols_after (c8_step c) unit_fresh (c8_runs c))
-  && match c8_obs_marks c with Some m => natlist_eqb m (marks st) | None => true end
+  && Nat.eqb (length (c8_obs_conv c)) (length (c8_obs_points c))
+  && Nat.eqb (last (c8_obs_ncols c) 0) (length (c8_obs_points c))
+  (* the points are strictly increasing, at least one step apart except a final remainder; after every run() the last one
+     is the total number of traces *)
+  && strictly_increasing (c8_obs_points c)
+  && runs_points_ok (c8_step c) 0 0 (c8_runs c) (split_counts 0 (c8_obs_ncols c) (c8_obs_points c))
   (* every column is the score of a fresh attack on the prefix: EXACTLY (same code on the same exactly-summed accumulators;
      a column stored in a narrower dtype than the scores is not the scores) *)
-  && Nat.eqb (length (c8_obs_conv c)) (length (cols st))
   && forallb2 (fvals_same 0) (c8_obs_conv c) (c8_prefix_scores c)
   && forallb (fun col => Nat.eqb (length col) (c8_width c)) (c8_obs_conv c)
   (* the last column is the final scores *)
   && fvals_same 0 (last (c8_obs_conv c) []) (c8_obs_scores c)
-  && Nat.eqb (last (c08_points c) 0) (processed st)
   (* asking for convergence traces changed neither results nor scores *)
   && fvals_same tol (c8_obs_scores c) (c8_plain_scores c)
   && fvals_same tol (c8_obs_results c) (c8_plain_results c).
+
+(* CORRESPONDENCE level (corr_fn): the implementation follows the state machine — when results were computed and how many
+   columns there were, the exact positions and number of the columns, the marks left in _batches_processed. *)
+Definition c08_corr (c : c08_case) : bool :=
+  let st := c08_model_state c in
+  list_eqb pairnat_eqb (c8_obs_computes c) (computes st)
+  && natlist_eqb (c8_obs_ncols c) (c08_ncols_after (c8_step c) unit_fresh (c8_runs c))
+  && natlist_eqb (c8_obs_points c) (c08_points c)
+  && match c8_obs_marks c with Some m => natlist_eqb m (marks st) | None => true end.
 
 Definition c08_explain (c : c08_case) :=
   let st := c08_model_state c in (cols st, computes st, marks st).
